@@ -5,7 +5,7 @@ EXPLANATION = 'Start-up half of C09. GMGPolar::initializeSolution (real text) is
 
 
 def run(tier, seed, work):
-    return driver.run_property("C09", tier, seed, work, ("initializeSolution",), EXPLANATION)
+    return driver.run_property("C09", tier, seed, work, ("initializeSolution", "solve"), EXPLANATION)
 
 
 def replay(path):
